@@ -13,7 +13,7 @@ CHECKS = {
                 "real decoder (S->I). Recorded calls over exhaustive 16-bit ranges, every 2^k+-3 and random 64-bit arguments are validated by TLC "
                 "against the same operators (I->S).",
         "design_ref": "DESIGN.md section 6, C05",
-        "note": "Trusted: TLC, the TLA+ transcription of RFC 8949 section 3 (spec/CborWire.tla, spec/Decoder.tla), the harness projection of Rust "
+        "note": "Also: a table-driven sweep of the 32-bit argument space (every third argument in thorough) through 33 integer targets against class rows emitted by TLC (MC_Tables); spec/Data.tla extras are validated as notes. Trusted: TLC, the TLA+ transcription of RFC 8949 section 3 (spec/CborWire.tla, spec/Decoder.tla), the harness projection of Rust "
                 "integers to (sign, magnitude). The 2^32 sweeps of the quantifier are not run through TLC.",
         "technique": "TLA+ spec (C05/Decoder/CborWire) + TLC bounded model checking + spec->impl case replay + impl->spec trace validation",
         "engine": "tlc+vh",
@@ -60,7 +60,7 @@ CHECKS["C16"] = {
             "AsyncWriter (scripted AsyncWrite, futures dropped at Pending) with exact sink bytes compared; seeded random walks of a compliant caller "
             "are validated event by event against the same actions.",
     "design_ref": "DESIGN.md section 6, C16 and section 4 (compliant caller)",
-    "note": "Trusted: TLC, futures-io semantics as modelled by the scripted sink. Bounds in MC: <= 5 values, <= 2-3 consecutive Pending, <= 2 sink "
+    "note": "Liveness (every future completes, eventually the sink holds exactly the frames of all accepted values) is checked on the model under fairness (MC_C16L). Trusted: TLC, futures-io semantics as modelled by the scripted sink. Bounds in MC: <= 5 values, <= 2-3 consecutive Pending, <= 2 sink "
             "faults, <= 4 syncs.",
     "technique": "TLA+ state-machine spec (AsyncWriter) with compliance ghost + TLC exhaustive schedule exploration + schedule replay + trace validation of random walks",
     "engine": "tlc+vh",
@@ -89,7 +89,7 @@ CHECKS["C13"] = {
             "each recorded outcome: success iff it fits, identical bytes in every sink, write error otherwise with a prefix left behind, position = "
             "bytes accepted, nothing outside the sink touched.",
     "design_ref": "DESIGN.md section 6, C13",
-    "note": "Trusted: TLC; the reference encoding is the encoder's own Vec output (sink independence is what is decided here, byte correctness is C03).",
+    "note": "Also: std::io sinks that make short writes (a bounded &mut [u8], a writer taking three bytes per call); an unbounded TLAPS proof of the position law of the length abstraction (bonus). Trusted: TLC; the reference encoding is the encoder's own Vec output (sink independence is what is decided here, byte correctness is C03).",
     "technique": "TLA+ spec of the sink laws (Sinks) + TLC enumeration of write sequences + replay on the real sinks + trace validation over all capacities",
     "engine": "tlc+vh",
 }
@@ -115,7 +115,7 @@ CHECKS["C12"] = {
             "is replayed on Encoder::f16/f32 and Decoder::f16/f32/f64; recorded encode/read-back calls over exponent boundaries, subnormals, "
             "neighbours of every half and random f32/f64 patterns are validated by TLC.",
     "design_ref": "DESIGN.md section 6, C12 and Appendix A.8",
-    "note": "Trusted: TLC, the TLA+ transcription of IEEE 754. NaN results are any NaN. The full 2^32 f32 sweep is not run through TLC.",
+    "note": "Also: the narrowing table - TLC prints one row per rounding class and checks constancy on the class; Encoder::f16 is run on every single-precision pattern of those classes (all 2^32 in thorough). Trusted: TLC, the TLA+ transcription of IEEE 754. NaN results are any NaN. The full 2^32 f32 sweep is not run through TLC.",
     "technique": "TLA+ spec of IEEE 754 half conversions (Half/Floats) + TLC enumeration with cross-check invariants + replay + trace validation",
     "engine": "tlc+vh",
 }
@@ -128,7 +128,7 @@ CHECKS["C03"] = {
             "preferred item carrying the value given. Every explored call and sequence is replayed on Encoder<Vec<u8>> (twice, for determinism); "
             "exhaustive 8/16-bit and boundary-dense/random 32/64-bit arguments, all 256 simple values and random call sequences are validated by TLC.",
     "design_ref": "DESIGN.md section 6, C03 and section 7 (F2)",
-    "note": "Trusted: TLC, the transcription of RFC 8949 section 3 and 4.1. Known finding: simple(24..=31). The built-in Encode impls are decided by the "
+    "note": "Also: ArrayIter / MapIter under every kind of size hint (Encoder!IterBytes); a table-driven sweep of the 32-bit argument space against class rows emitted by TLC (MC_Tables). Trusted: TLC, the transcription of RFC 8949 section 3 and 4.1. Known finding: simple(24..=31). The built-in Encode impls are decided by the "
             "C01 check's events (bytes equal the reference encoding of the value).",
     "technique": "TLA+ spec of the Encoder as an append-only log with ghost nesting (Encoder/CborData) + TLC + replay + trace validation",
     "engine": "tlc+vh",
@@ -156,7 +156,7 @@ CHECKS["C04"] = {
             "accessor's expected outcome; all are replayed on the real Decoder (values, end positions, offsets of borrowed slices, error class on "
             "prefixes). Generated deep items with random head widths and framing are decoded through all 25 accessors and validated by TLC.",
     "design_ref": "DESIGN.md section 6, C04",
-    "note": "Trusted: TLC, the RFC 8949 / RFC 3629 transcriptions. Composite target types are covered by the C01 check (re-framing events).",
+    "note": "Also: array_iter / map_iter drained with an any-item element type (count, exact end behind the break). Trusted: TLC, the RFC 8949 / RFC 3629 transcriptions. Composite target types are covered by the C01 check (re-framing events).",
     "technique": "TLA+ spec of the accessors as total outcome functions cross-checked against a data-model decoder + TLC + replay + trace validation",
     "engine": "tlc+vh",
 }
@@ -197,7 +197,7 @@ CHECKS["C02"] = {
             "model. Type-directed mutations (one and two boundary head arguments, framing flips, truncation, splices) of valid encodings of every "
             "built-in instantiation, drop accounting and Size::head/tail are validated the same way.",
     "design_ref": "DESIGN.md section 6, C02 and section 7 (F1)",
-    "note": "Trusted: TLC; the in-harness monitor for the three oracle-free predicates. Not claimed: absence of undefined behaviour inside unsafe "
+    "note": "The sweep also runs generated items with boundary head arguments and huge declared lengths placed behind skip's switch into stack mode. Trusted: TLC; the in-harness monitor for the three oracle-free predicates. Not claimed: absence of undefined behaviour inside unsafe "
             "code, wall-clock work. Fixed on the way: Duration decode panic.",
     "technique": "TLA+ spec of the Decoder object with total actions + TLC (deadlock check) + replay + monitored sweep sampled into trace validation",
     "engine": "tlc+vh",
@@ -210,7 +210,7 @@ CHECKS["C08"] = {
             "gen/schema2rs.py turns every emitted schema into a Rust type with the real derive macros (identifiers, declaration order and n/b "
             "spelling drawn from a seed), vh-derive replays every case. This check claims the documented wire format DocEnc of spec/Derive.tla: every enumerated schema is turned into a Rust type with the real #[derive(Encode)] and its output compared byte for byte.",
     "design_ref": "DESIGN.md section 6, C08 and section 7 (F4-F8)",
-    "note": "Trusted: TLC, the schema-to-Rust generator. 693 generated types in quick. Seeded random wider-grammar schemas (gen/randschema.py) are validated by TLC through spec/Trace_Derive.tla.",
+    "note": "Families also cover optional fields not spelled Option<T> (boxed, alias, type parameter), borrowing field types, codecs named as module or function by function, transparent codecs, wide indices, tagged / encoding-overriding unit variants; C09 adds every-container-indefinite and all-heads-wider framings and the error clauses (wrong / missing tag, missing mandatory field, unknown variant); C10 adds the writer type's real encoder (xdec), arbitrary-content unknown fields and indefinite writers; rustc-rejected generated types are left out with a note. Trusted: TLC, the schema-to-Rust generator. 693 generated types in quick. Seeded random wider-grammar schemas (gen/randschema.py) are validated by TLC through spec/Trace_Derive.tla.",
     "technique": "TLA+ spec of the derive wire format and compatibility projection (Derive) + TLC schema/value enumeration + code generation + replay on the real macros",
     "engine": "tlc+vh-derive",
 }
@@ -222,7 +222,7 @@ CHECKS["C09"] = {
             "gen/schema2rs.py turns every emitted schema into a Rust type with the real derive macros (identifiers, declaration order and n/b "
             "spelling drawn from a seed), vh-derive replays every case. This check claims round trip through the derived decoder: the documented bytes, a wider container head and an indefinite-length container must decode to the value with exact consumption; wrong inputs must fail.",
     "design_ref": "DESIGN.md section 6, C09 and section 7 (F4-F8)",
-    "note": "Trusted: TLC, the schema-to-Rust generator. 693 generated types in quick. Seeded random wider-grammar schemas (gen/randschema.py) are validated by TLC through spec/Trace_Derive.tla.",
+    "note": "Families also cover optional fields not spelled Option<T> (boxed, alias, type parameter), borrowing field types, codecs named as module or function by function, transparent codecs, wide indices, tagged / encoding-overriding unit variants; C09 adds every-container-indefinite and all-heads-wider framings and the error clauses (wrong / missing tag, missing mandatory field, unknown variant); C10 adds the writer type's real encoder (xdec), arbitrary-content unknown fields and indefinite writers; rustc-rejected generated types are left out with a note. Trusted: TLC, the schema-to-Rust generator. 693 generated types in quick. Seeded random wider-grammar schemas (gen/randschema.py) are validated by TLC through spec/Trace_Derive.tla.",
     "technique": "TLA+ spec of the derive wire format and compatibility projection (Derive) + TLC schema/value enumeration + code generation + replay on the real macros",
     "engine": "tlc+vh-derive",
 }
@@ -234,7 +234,7 @@ CHECKS["C10"] = {
             "gen/schema2rs.py turns every emitted schema into a Rust type with the real derive macros (identifiers, declaration order and n/b "
             "spelling drawn from a seed), vh-derive replays every case. This check claims the compatibility relation Project of spec/Derive.tla: for every enumerated (writer, reader) pair related by the documented compatible changes and every writer value, in both directions, the reader must obtain the projected value.",
     "design_ref": "DESIGN.md section 6, C10 and section 7 (F4-F8)",
-    "note": "Trusted: TLC, the schema-to-Rust generator. 693 generated types in quick. Seeded random wider-grammar schemas (gen/randschema.py) are validated by TLC through spec/Trace_Derive.tla.",
+    "note": "Families also cover optional fields not spelled Option<T> (boxed, alias, type parameter), borrowing field types, codecs named as module or function by function, transparent codecs, wide indices, tagged / encoding-overriding unit variants; C09 adds every-container-indefinite and all-heads-wider framings and the error clauses (wrong / missing tag, missing mandatory field, unknown variant); C10 adds the writer type's real encoder (xdec), arbitrary-content unknown fields and indefinite writers; rustc-rejected generated types are left out with a note. Trusted: TLC, the schema-to-Rust generator. 693 generated types in quick. Seeded random wider-grammar schemas (gen/randschema.py) are validated by TLC through spec/Trace_Derive.tla.",
     "technique": "TLA+ spec of the derive wire format and compatibility projection (Derive) + TLC schema/value enumeration + code generation + replay on the real macros",
     "engine": "tlc+vh-derive",
 }
